@@ -115,6 +115,7 @@ Section De.
       (* variant_seed: varint(u32) index, handed to the visitor's variant identifier,
          which rejects an unknown index with a custom error *)
       let* '(idx, s1) := take_varint core_reader_u32 s in
+      if N.of_nat (length vs) <=? idx then Err SerdeDeCustom else
       (fix pick (vs : list ty) (i : nat) : res (value * St) :=
          match vs, i with
          | [], _ => Err SerdeDeCustom
